@@ -43,6 +43,8 @@ pub enum GBody {
     Then(String),
     Term,
     Empty,
+    /// an element with a same-named descendant (`<tag><tag>7</tag></tag>`)
+    Nested,
     Text,
     CData,
     Comment,
@@ -117,6 +119,7 @@ impl GBody {
             GBody::Then(cs) => format!("T{}", if cs.is_empty() { "_" } else { cs }),
             GBody::Term => "E".into(),
             GBody::Empty => "M".into(),
+            GBody::Nested => "G".into(),
             GBody::Text => "X".into(),
             GBody::CData => "D".into(),
             GBody::Comment => "K".into(),
@@ -128,11 +131,12 @@ impl GBody {
         Some(match h {
             "N" => GBody::Name(unhexs(t)?),
             "T" if t == "_" => GBody::Then(String::new()),
-            "T" if !t.is_empty() && t.chars().all(|c| "raexdkR".contains(c)) => {
+            "T" if !t.is_empty() && t.chars().all(|c| "raexdkRm".contains(c)) => {
                 GBody::Then(t.into())
             }
             "E" if t.is_empty() => GBody::Term,
             "M" if t.is_empty() => GBody::Empty,
+            "G" if t.is_empty() => GBody::Nested,
             "X" if t.is_empty() => GBody::Text,
             "D" if t.is_empty() => GBody::CData,
             "K" if t.is_empty() => GBody::Comment,
@@ -367,6 +371,7 @@ impl Case {
                             'r' => "<reject/>",
                             'a' => "<accept/>",
                             'e' => "<next>policy</next>",
+                            'm' => "<metric><metric>100</metric></metric>",
                             'x' => "stray",
                             'd' => "<![CDATA[c]]>",
                             'k' => "<!-- c -->",
@@ -379,6 +384,7 @@ impl Case {
                     "<term><name>t1</name><from><route-filter><address>10.0.0.0/8</address><orlonger/></route-filter></from><then><accept/></then></term>",
                 ),
                 GBody::Empty => out.push_str("<apply-groups/>"),
+                GBody::Nested => out.push_str("<tag><tag>7</tag></tag>"),
                 GBody::Text => out.push_str("stray text"),
                 GBody::CData => out.push_str("<![CDATA[c]]>"),
                 GBody::Comment => out.push_str("<!-- c -->"),
@@ -669,6 +675,12 @@ fn body_shapes(name: &str) -> Vec<Vec<GBody>> {
         vec![n(), t("r"), t("")],
         vec![n(), GBody::Name("second".into()), t("r")],
         vec![n(), GBody::Empty, t("r")],
+        // Junos renders several actions as a container with a same-named leaf
+        vec![n(), t("mr")],
+        vec![n(), t("rm")],
+        vec![n(), t("m")],
+        vec![n(), GBody::Nested, t("r")],
+        vec![n(), t("r"), GBody::Nested],
         vec![n(), GBody::Text, t("r")],
         vec![n(), GBody::CData, t("r")],
         vec![n(), GBody::Term],
